@@ -176,7 +176,10 @@ def addressee_only(A1: dict, X: dict) -> str:
     fr = {k: (v[4:] if v[3:4] == " " else v) for k, v in A1.items()}
     srcs = {f[7:16] for f in fr.values() if f[:2] in (" I", "RP")}
     lost = set(A1) - set(X)
-    if lost and all(fr[k][:2] == "RP" and fr[k][17:19] not in ("18", "--", "63") and fr[k][17:26] not in srcs
+    from ramses_tx.address import dev_id_to_hex_id
+
+    named = "".join(f[46:] for f in fr.values() if f[37:41] == "000C")      # (nor does the controller name it in a device list)
+    if lost and all(fr[k][:2] == "RP" and fr[k][17:19] not in ("18", "--", "63") and fr[k][17:26] not in srcs and dev_id_to_hex_id(fr[k][17:26]) not in named
                     and any(k2 not in lost and fr[k2][:16] == fr[k][:16] and fr[k2][37:41] == fr[k][37:41] and k2 > k for k2 in fr) for k in lost):
         return ".reply-held-by-an-addressee-known-by-its-requests-only"
     return ""
